@@ -86,7 +86,8 @@ def check_sampler(res, c):
     # second round on the LOADED instrument: edit it in place (samples, envelopes, map, embedded effect) and save again
     from . import c06
     import random as _random
-    applied = c06.mutate_live(s2, _random.Random(c.seed * 104729 + c.index), 10, prefer=("/effect/", "/samples/", "_envelope"))
+    applied = c06.mutate_live(s2, _random.Random(c.seed * 104729 + c.index), 14, prefer=("/effect/", "/samples/", "_envelope"),
+                              first_classes=("sampler-envelope-rebound", "sampler-sample-shared", "sampler-slot-emptied") if c.index % 2 else ("sampler-envelope-rebound",))
     if applied:
         res.count("resave_after_edit")
         S_new = build.norm(snapshot.snap_synth(s2), "before")
